@@ -47,7 +47,12 @@ whose start is the parent's edit start translated into the child's coordinates. 
 theorem editKids_get : ∀ (ks : List Tree) (cx : Ctx) (ne cr : Length) (i j : Nat) (k' : Tree),
     (editKids ks cx ne cr i)[j]? = some k' →
     ∃ k, ks[j]? = some k ∧
-      (k' = k ∨ ∃ e' : Edit, k' = editTree k e' ∧ e'.start.bytes = cx.start.bytes - (cr.bytes + kidsOffset ks j))
+      (k' = k ∨ ∃ e' : Edit, k' = editTree k e' ∧
+        e'.start.bytes = cx.start.bytes - (cr.bytes + kidsOffset ks j) ∧
+        (e'.old_end.bytes = cx.oldEnd.bytes - (cr.bytes + kidsOffset ks j) ∨
+          e'.old_end.bytes = cx.start.bytes - (cr.bytes + kidsOffset ks j)) ∧
+        (cx.parentDependsOnColumn = false → k.data.dependsOnColumn = false →
+          cr.bytes + kidsOffset ks j ≤ cx.oldEnd.bytes))
   | [], cx, ne, cr, i, j, k', h => by
     unfold editKids at h
     simp at h
@@ -64,38 +69,61 @@ theorem editKids_get : ∀ (ks : List Tree) (cx : Ctx) (ne cr : Length) (i j : N
         simp only [List.getElem?_cons_succ] at h
         obtain ⟨k, hk, hr⟩ := editKids_get rest cx ne _ (i + 1) j k' h
         refine ⟨k, by simpa using hk, ?_⟩
-        rcases hr with hr | ⟨e', he, hs⟩
+        rcases hr with hr | ⟨e', he, hs, ho, hu⟩
         · exact Or.inl hr
-        · exact Or.inr ⟨e', he, by rw [hs, hcr, kidsOffset_succ]; omega⟩
+        · rw [hcr] at hs ho hu
+          rw [kidsOffset_succ]
+          refine Or.inr ⟨e', he, by omega, ?_, fun a b => by have := hu a b; omega⟩
+          rcases ho with ho | ho
+          · exact Or.inl (by omega)
+          · exact Or.inr (by omega)
     · split at h
       · -- loop stops: this child and everything after it are returned as they are
         exact ⟨k', h, Or.inl rfl⟩
-      · split at h
+      · rename_i hstop
+        have hup : cx.parentDependsOnColumn = false → c.data.dependsOnColumn = false →
+            cr.bytes + kidsOffset (c :: rest) 0 ≤ cx.oldEnd.bytes := by
+          intro a b
+          rw [kidsOffset_zero]
+          unfold stopsAt at hstop
+          simp [a, b] at hstop
+          omega
+        split at h
         all_goals
           cases j with
           | zero =>
-            refine ⟨c, by simp, Or.inr ⟨_, by simpa using h.symm, ?_⟩⟩
-            rw [saturating_sub_bytes, kidsOffset_zero]; omega
+            refine ⟨c, by simp, Or.inr ⟨_, by simpa using h.symm, ?_, ?_, hup⟩⟩
+            · rw [saturating_sub_bytes, kidsOffset_zero]; omega
+            · simp only [saturating_sub_bytes, kidsOffset_zero]
+              first
+                | exact Or.inl (by omega)
+                | exact Or.inr (by omega)
           | succ j =>
             simp only [List.getElem?_cons_succ] at h
             obtain ⟨k, hk, hr⟩ := editKids_get rest cx _ _ (i + 1) j k' h
             refine ⟨k, by simpa using hk, ?_⟩
-            rcases hr with hr | ⟨e', he, hs⟩
+            rcases hr with hr | ⟨e', he, hs, ho, hu⟩
             · exact Or.inl hr
-            · exact Or.inr ⟨e', he, by rw [hs, hcr, kidsOffset_succ]; omega⟩
+            · rw [hcr] at hs ho hu
+              rw [kidsOffset_succ]
+              refine Or.inr ⟨e', he, by omega, ?_, fun a b => by have := hu a b; omega⟩
+              rcases ho with ho | ho
+              · exact Or.inl (by omega)
+              · exact Or.inr (by omega)
 
 /-- The two outcomes of `editTree` on a node. -/
 theorem editTree_cases (d : NodeData) (ks : List Tree) (e : Edit) :
     (editTree (.mk d ks) e = .mk d ks) ∨
     (e.start.bytes ≤ (Tree.mk d ks).totalBytes + d.lookahead ∧
-      ∃ (d' : NodeData) (cx : Ctx) (ne : Length), d'.hasChanges = true ∧ cx.start = e.start ∧
+      ∃ (d' : NodeData) (cx : Ctx) (ne : Length), d'.hasChanges = true ∧
+        (cx.start = e.start ∧ cx.oldEnd = e.old_end ∧ cx.parentDependsOnColumn = d.dependsOnColumn) ∧
         editTree (.mk d ks) e = .mk d' (editKids ks cx ne length_zero 0)) := by
   unfold editTree
   simp only
   split
   · exact Or.inl rfl
   · rename_i h
-    refine Or.inr ⟨?_, _, _, _, ?_, rfl, rfl⟩
+    refine Or.inr ⟨?_, _, _, _, ?_, ⟨rfl, rfl, rfl⟩, rfl⟩
     · have : (length_add d.padding d.size).bytes = d.padding.bytes + d.size.bytes := by simp [length_add]
       simp only [Tree.totalBytes, Tree.data]
       omega
@@ -131,7 +159,7 @@ theorem unmarked_shared : ∀ (p : List Nat) (t : Tree) (e : Edit) (s : Tree),
       · rename_i k' hk'
         obtain ⟨k, hk, hr⟩ := editKids_get ks cx ne length_zero 0 i k' hk'
         rw [hk]
-        rcases hr with hr | ⟨e', he, _⟩
+        rcases hr with hr | ⟨e', he, _, _, _⟩
         · rw [← hr]; exact h
         · rw [he] at h
           exact unmarked_shared q k e' s h hu
@@ -151,7 +179,7 @@ theorem marked_bound : ∀ (p : List Nat) (t : Tree) (e : Edit) (s s' : Tree) (o
     · rw [h1] at hs'; exact absurd hs'.symm hne
     · simpa [Tree.data] using hb
   | i :: q, .mk d ks, e, s, s', o, hs, hs', ho, hne => by
-    rcases editTree_cases d ks e with h1 | ⟨_, d', cx, ne, _, hcx, h1⟩
+    rcases editTree_cases d ks e with h1 | ⟨_, d', cx, ne, _, ⟨hcx, _, _⟩, h1⟩
     · rw [h1, hs] at hs'
       exact absurd (Option.some.inj hs').symm hne
     · rw [h1] at hs'
@@ -161,7 +189,7 @@ theorem marked_bound : ∀ (p : List Nat) (t : Tree) (e : Edit) (s s' : Tree) (o
         obtain ⟨k, hk, hr⟩ := editKids_get ks cx ne length_zero 0 i k' hk'
         rw [hk] at hs ho
         simp only at hs ho
-        rcases hr with hr | ⟨e', he, hst⟩
+        rcases hr with hr | ⟨e', he, hst, _, _⟩
         · rw [hr, hs] at hs'
           exact absurd (Option.some.inj hs').symm hne
         · rw [he] at hs'
@@ -174,6 +202,62 @@ theorem marked_bound : ∀ (p : List Nat) (t : Tree) (e : Edit) (s s' : Tree) (o
             rw [hst, hcx] at ih
             simp [length_zero] at ih
             omega
+      · contradiction
+
+theorem noColL_get : ∀ (ks : List Tree) (i : Nat) (k : Tree), noColL ks = true → ks[i]? = some k → noCol k = true
+  | [], _, _, _, h => by simp at h
+  | c :: rest, 0, k, hn, h => by
+    simp only [noColL, Bool.and_eq_true] at hn
+    simp only [List.getElem?_cons_zero, Option.some.injEq] at h
+    rw [← h]; exact hn.1
+  | c :: rest, i + 1, k, hn, h => by
+    simp only [noColL, Bool.and_eq_true] at hn
+    simp only [List.getElem?_cons_succ] at h
+    exact noColL_get rest i k hn.2 h
+
+/-- `marked_upper`: in a tree without column-dependent nodes, a subtree that the edit does not
+return as the very same value starts (padding included) at or before the old end of the edit. -/
+theorem marked_upper : ∀ (p : List Nat) (t : Tree) (e : Edit) (s s' : Tree) (o : Nat),
+    noCol t = true → e.start.bytes ≤ e.old_end.bytes →
+    subtreeAt t p = some s → subtreeAt (editTree t e) p = some s' → offsetAt t p = some o → s' ≠ s →
+    o ≤ e.old_end.bytes
+  | [], .mk d ks, e, s, s', o, _, _, _, _, ho, _ => by
+    simp only [offsetAt, Option.some.injEq] at ho
+    omega
+  | i :: q, .mk d ks, e, s, s', o, hn, hle, hs, hs', ho, hne => by
+    simp only [noCol, Bool.and_eq_true, Bool.not_eq_true'] at hn
+    rcases editTree_cases d ks e with h1 | ⟨_, d', cx, ne, _, ⟨hcs, hco, hcp⟩, h1⟩
+    · rw [h1, hs] at hs'
+      exact absurd (Option.some.inj hs').symm hne
+    · rw [h1] at hs'
+      simp only [subtreeAt, offsetAt] at hs hs' ho
+      split at hs'
+      · rename_i k' hk'
+        obtain ⟨k, hk, hr⟩ := editKids_get ks cx ne length_zero 0 i k' hk'
+        rw [hk] at hs ho
+        simp only at hs ho
+        have hnk := noColL_get ks i k hn.2 hk
+        rcases hr with hr | ⟨e', he, hst, hoe, hup⟩
+        · rw [hr, hs] at hs'
+          exact absurd (Option.some.inj hs').symm hne
+        · rw [he] at hs'
+          cases ho' : offsetAt k q with
+          | none => rw [ho'] at ho; simp at ho
+          | some o' =>
+            rw [ho'] at ho
+            simp only [Option.map_some, Option.some.injEq] at ho
+            have hkd : k.data.dependsOnColumn = false := by
+              obtain ⟨kd, kks⟩ := k
+              simp only [noCol, Bool.and_eq_true, Bool.not_eq_true'] at hnk
+              exact hnk.1
+            have hoff := hup (by rw [hcp]; exact hn.1) hkd
+            rw [hcs] at hst hoe
+            rw [hco] at hoe hoff
+            simp only [length_zero, Nat.zero_add] at hst hoe hoff
+            have hle' : e'.start.bytes ≤ e'.old_end.bytes := by
+              rcases hoe with hoe | hoe <;> omega
+            have ih := marked_upper q k e' s s' o' hnk hle' hs hs' ho' hne
+            rcases hoe with hoe | hoe <;> omega
       · contradiction
 
 end TsVerif.C12
